@@ -25,6 +25,7 @@ func c04Main(args []string) error {
 	txs := c.fs.Int("txs", 12, "transactions per history")
 	opsPerTx := c.fs.Int("ops", 12, "max ops per transaction")
 	dir := c.fs.String("dir", "", "scratch dir")
+	bigfree := c.fs.Bool("bigfree", false, "prepend one history whose free list exceeds 65535 entries")
 	readersAlways := c.fs.Bool("readers", false, "every history holds read transactions open across writer events")
 	c.fs.Parse(args)
 	w, done := openOut(c.out)
@@ -48,6 +49,22 @@ func c04Main(args []string) error {
 		return nil
 	}
 	r := &rng{s: c.seed}
+	if *bigfree {
+		// a free list beyond 65535 entries (the 0xFFFF count convention) inside a real database
+		o := openOpts{ps: 1024, fl: []string{"array", "hashmap"}[int(c.seed)%2]}
+		L := []string{"open " + o.String(), "beginw", "x w create - 6262"}
+		for i := 0; i < 4100; i++ {
+			L = append(L, fmt.Sprintf("x w put 6262 %x @16000:%d", fmt.Sprintf("big%05d", i), i%251))
+		}
+		L = append(L, "dump w", "noimg-next", "commit", "beginw")
+		for i := 0; i < 4100; i++ {
+			L = append(L, fmt.Sprintf("x w del 6262 %x", fmt.Sprintf("big%05d", i)))
+		}
+		L = append(L, "dump w", "commit", "beginw", "x w put 6262 6b 76", "dump w", "commit",
+			"close", "open "+o.String(), "beginw", "x w put 6262 6b32 76", "dump w", "commit",
+			"beginr 901", "dump r901", "check r901", "bstats r901", "endr 901", "close")
+		runHistory(w, *dir, 900000, "bigfree", L, *img)
+	}
 	for i := 0; i < c.n; i++ {
 		cr := r.fork()
 		o := histOptions(cr, i)
